@@ -566,3 +566,66 @@ func (fs FuncSet) Alias(alias map[string]string) FuncSet {
 	}
 	return out
 }
+
+// HashCons returns v with every pair of structurally equal non-empty containers replaced by ONE shared
+// map / slice (maximal sharing): the document is then a DAG, not a tree - the same container is reachable
+// along several paths - while its JSON meaning is unchanged. shared reports how many containers were merged.
+func HashCons(v interface{}) (out interface{}, shared int) {
+	seen := map[string]interface{}{}
+	var walk func(v interface{}) (interface{}, string)
+	walk = func(v interface{}) (interface{}, string) {
+		switch t := v.(type) {
+		case map[string]interface{}:
+			ks := make([]string, 0, len(t))
+			for k := range t {
+				ks = append(ks, k)
+			}
+			sort.Strings(ks)
+			var b strings.Builder
+			b.WriteByte('{')
+			for _, k := range ks {
+				nv, s := walk(t[k])
+				t[k] = nv
+				kb, _ := json.Marshal(k)
+				b.Write(kb)
+				b.WriteByte(':')
+				b.WriteString(s)
+				b.WriteByte(',')
+			}
+			b.WriteByte('}')
+			s := b.String()
+			if len(t) == 0 {
+				return t, s
+			}
+			if prev, ok := seen[s]; ok {
+				shared++
+				return prev, s
+			}
+			seen[s] = t
+			return t, s
+		case []interface{}:
+			var b strings.Builder
+			b.WriteByte('[')
+			for i := range t {
+				nv, s := walk(t[i])
+				t[i] = nv
+				b.WriteString(s)
+				b.WriteByte(',')
+			}
+			b.WriteByte(']')
+			s := b.String()
+			if len(t) == 0 {
+				return t, s
+			}
+			if prev, ok := seen[s]; ok {
+				shared++
+				return prev, s
+			}
+			seen[s] = t
+			return t, s
+		}
+		return v, fmt.Sprintf("%T:%s", v, JS(v))
+	}
+	out, _ = walk(v)
+	return out, shared
+}
